@@ -729,6 +729,9 @@ ERRORS += [
     ("gate-body-reads-global-variable", "gfree2 q[0];"),
     ("gate-body-reads-callers-shadow", "float[64] lv = 0.5; gfree q[0];"),
     ("duplicate-sub-arg-nonadjacent", "def s6(qubit a, qubit b2, qubit c2) { h a; } s6(q[0], q[1], q[0]);"),
+    ("duplicate-sub-arg-later-pair", "def s9(qubit a, qubit b2, qubit c2) { h a; } s9(q[0], q[1], q[1]);"),
+    ("duplicate-sub-arg-later-pair-slices", "def s10(qubit[2] a, qubit b2, qubit[2] c2) { h a; } s10(r[0:2], q[2], q[1:3]);"),
+    ("duplicate-sub-arg-last-two-of-four", "def s11(qubit a, qubit b2, qubit c2, qubit d2) { h a; } s11(r[0], q[0], q[2], q[2]);"),
     ("duplicate-sub-arg-nonadjacent-slices", "def s7(qubit[2] a, qubit b2, qubit[2] c2) { h a; } s7(q[1:3], q[0], q[{2, 1}]);"),
     ("duplicate-sub-arg-two-registers", "def s8(qubit a, qubit b2, qubit c2, qubit d2) { h a; } s8(q[0], r[0], q[1], r[0]);"),
 ]
@@ -958,8 +961,8 @@ def array_cases(rnd, n):
         a = idx(d, p_bad)
         b = idx(d, p_bad) if rnd.random() < 0.7 else d - 1
         bad = rnd.random() < p_bad
-        if rnd.random() < 0.25:
-            st = rnd.choice([1, 2, -1])
+        if rnd.random() < 0.3:
+            st = rnd.choice([1, 2, 2, 3, -1, -2])
             if not bad and ((st > 0 and a > b) or (st < 0 and a < b)):
                 a, b = b, a
             return "%d:%d:%d" % (a, st, b), a, b, st
@@ -977,7 +980,7 @@ def array_cases(rnd, n):
     for _ in range(n):
         p_bad = 0.0 if rnd.random() < 0.75 else 0.15
         ty, kind = rnd.choice(tys)
-        dims = [rnd.randint(1, 4)] if rnd.random() < 0.65 else [rnd.randint(1, 3), rnd.randint(1, 3)]
+        dims = [rnd.choice([1, 2, 3, 4, 4, 6, 7])] if rnd.random() < 0.65 else [rnd.randint(1, 3), rnd.choice([1, 2, 3, 5])]
         L = ["qubit[4] q;", "int[8] k = %d;" % rnd.randint(0, 2)]
         L.append("array[%s, %s] a = %s;" % (ty, ", ".join(map(str, dims)), lit(kind, dims, bad=(p_bad > 0 and rnd.random() < 0.2))))
         if rnd.random() < 0.3:
@@ -1021,6 +1024,15 @@ def array_cases(rnd, n):
                 r2, a2, b2, s2 = rng(dims[0], p_bad)
                 L.append("b[%s] = a[%s];" % (r1, r2))
                 L.append("rx(%s) q[0];" % elem("b", 0.0))
+            elif c < 0.78 and len(dims) == 1 and dims[0] >= 3:
+                # a strided slice copied into a fresh array of exactly the selected length, then read back
+                r1, a1, b1, s1 = rng(dims[0], 0.0)
+                cnt = len(range(*slice(a1, b1 + 1, s1).indices(dims[0])))
+                if cnt >= 2:
+                    nm = "t%d" % len(L)
+                    L.append("array[%s, %d] %s;" % (ty, cnt, nm))
+                    L.append("%s[0:%d] = a[%s];" % (nm, cnt - 1, r1))
+                    L.append("rx(%s[%d]) q[%d];" % (nm, cnt - 1, rnd.randrange(4)))
             elif c < 0.82:
                 L.append("rx(sizeof(a%s)) q[1];" % rnd.choice(["", ", 0", ", %d" % (len(dims) - 1), ", %d" % len(dims)]))
             elif c < 0.9 and len(dims) == 1:
@@ -1037,7 +1049,7 @@ def array_cases(rnd, n):
             if rnd.random() < 0.5:
                 formal = "%s array[%s, #dim=%d] fa" % (acc, ty, nd if rnd.random() >= p_bad else nd + 1)
             else:
-                formal = "%s array[%s, %s] fa" % (acc, ty, ", ".join(str(d if rnd.random() >= p_bad else d + 1) for d in dims))
+                formal = "%s array[%s, %s] fa" % (acc, ty, ", ".join(str((d if rnd.random() < 0.6 else rnd.randint(1, d)) if rnd.random() >= p_bad else d + 1) for d in dims))
             body = []
             z = ", 0" * (nd - 1)
             if acc == "mutable" or rnd.random() < p_bad:
@@ -1086,7 +1098,8 @@ def cast_use_cases():
     decls = [("int[8]", "3 > 2"), ("int[8]", "true"), ("int[8]", "bv"), ("int[8]", "bv && true"), ("int", "2 == 2"), ("uint[4]", "true"),
              ("uint[4]", "!bv"), ("int[8]", "1.7"), ("int[8]", "fw"), ("int[8]", "-0.5"), ("uint[4]", "2.9"),
              ("float[64]", "true"), ("float[64]", "2"), ("float[32]", "bv"), ("bool", "2"), ("bool", "0.5"), ("bool", "fw"),
-             ("const int[8]", "2 > 1"), ("const uint[4]", "true")]
+             ("const int[8]", "2 > 1"), ("const uint[4]", "true"), ("const uint[4]", "17"), ("const uint[8]", "-1"), ("const int[8]", "7.9"),
+             ("const bool", "5"), ("const float[64]", "3"), ("const uint[2]", "5")]
     for ty, e in decls:
         idx = ty.replace("const ", "").startswith(("int", "uint"))
         uses = ["rx(m) q[0];", "rz(m * 2) q[1];", "pow(m) @ x q[1];" if idx else "gphase(m);"]
@@ -1099,4 +1112,29 @@ def cast_use_cases():
         if not ty.startswith("const"):
             out.append(H3 + pre + "%s m;\nm = %s;\n" % (ty, e) + "\n".join(uses[:4]) + "\n")
             out.append(H3 + pre + "def f(%s a) -> %s { return a; }\n%s m = f(%s);\n" % (ty, ty, ty, e) + "\n".join(uses[:4]) + "\n")
+    return out
+
+
+def strided_slice_cases():
+    """every start / step / end of a strided slice on arrays of 4..7 cells, read (copied into an array of exactly the
+    selected length, element by element comparison through gate angles), written, and passed by reference (C07, C08)"""
+    out = []
+    for d in (4, 5, 7):
+        vals = ", ".join(str(10 + i) for i in range(d))
+        for st in (2, 3, -2):
+            for a in range(d):
+                for b in range(d):
+                    if (st > 0 and a >= b) or (st < 0 and a <= b):
+                        continue
+                    sel = list(range(d))[slice(a, b + 1, st)]
+                    if len(sel) < 2:
+                        continue
+                    n = len(sel)
+                    pre = "qubit[4] q;\narray[int[8], %d] a = {%s};\n" % (d, vals)
+                    reads = "".join("rx(t[%d]) q[%d];\n" % (i, i % 4) for i in range(n))
+                    out.append(H3 + pre + "array[int[8], %d] t;\nt[0:%d] = a[%d:%d:%d];\n" % (n, n - 1, a, st, b) + reads)
+                    out.append(H3 + pre + "a[%d:%d:%d] = 7;\n" % (a, st, b) + "".join("rx(a[%d]) q[%d];\n" % (i, i % 4) for i in range(d)))
+                    out.append(H3 + "qubit[4] q;\ndef f(mutable array[int[8], #dim=1] v, qubit p) { rx(v[%d]) p; v[0] = 1; }\n" % (n - 1)
+                               + "array[int[8], %d] a = {%s};\nf(a[%d:%d:%d], q[0]);\n" % (d, vals, a, st, b)
+                               + "".join("rx(a[%d]) q[%d];\n" % (i, i % 4) for i in range(d)))
     return out
